@@ -627,9 +627,14 @@ func c17Check(ineligible []string) func(r *rig) (string, string, string) {
 			}
 		}
 		touches := map[string]int{}
+		// every change the harness made to a file may land between the scan's stat and the hashing:
+		// the version hashed then carries an older time stamp and is legitimately sent once more
 		for _, n := range r.notes {
-			if i := strings.Index(n, "file change touch "); i >= 0 {
-				touches[strings.TrimSpace(n[i+len("file change touch "):])]++
+			if i := strings.Index(n, "file change "); i >= 0 {
+				f := strings.Fields(n[i+len("file change "):])
+				if len(f) == 2 {
+					touches[f[1]]++
+				}
 			}
 		}
 		for _, w := range r.wire { // a failed validation forces the whole file to be sent again
@@ -676,7 +681,7 @@ func TestC17Env(t *testing.T) {
 	scs = append(scs, envScenario{"2 eligible + 3 other files, 1 thread, keep, daemon (one deviation less)", keep, setup, d - 1})
 	runEnvProperty(t, "C17", "files changing between and during scans, hashing and transmission (E-ENV)", scs, d,
 		func(ev vh.EnvEvent, plan []vh.Deviation) []string {
-			if kindOf(ev.Key) == "remove" {
+			if k := kindOf(ev.Key); k == "remove" || k == "sync" {
 				return nil
 			}
 			var out []string
